@@ -236,6 +236,11 @@ def run_op(root, op):
             val = build(op["value"])
         except Exception as e:  # noqa: BLE001
             return ("skip", "value:" + type(e).__name__)
+        if isinstance(val, LazyStackedTensorDict) and any(d < 0 for d in val.batch_size):
+            # lazy_stack() of members with different batch sizes is tensordict's RAGGED stack: its batch size has -1 along the
+            # heterogeneous dims, so "the stack's batch size = the members' with the count inserted" is undefined for it.
+            # Such a value is not handed over (seen once in ~1.2 M thorough calls: a false alarm of the lazy-batch clause).
+            return ("skip", "value:ragged-lazy-stack")
     try:
         if o == "set":
             h.set(key_of(op["key"]), val, inplace=op.get("inplace", False))
@@ -573,17 +578,39 @@ def gen_op(rng, S, parent_of=None):
         elif r < 0.45:
             op["value"] = ["t", (ish or []) if good else bad_shape(rng, ish or bs), node["dev"] or "cpu"]
         else:
-            # a tensordict / dict with (mostly) the destination's keys and matching feature dims
+            # a tensordict / dict with (mostly) the destination's keys and matching feature dims; sometimes the value's batch
+            # size is a SUFFIX of the indexed one (expanded on the left) or a PREFIX (copy + batch_size assignment)
             ents = []
+            vb = list(sub["bs"])
+            mode = rng.random()
+            drop = rng.randint(1, len(vb)) if (mode < 0.15 and vb) else 0
             for key, v in node.get("ents") or []:
                 if v["k"] == "leaf" and rng.random() < 0.8:
                     feat = v["shape"][len(bs):]
-                    ents.append([key, ["t", (sub["bs"] + feat) if good or rng.random() < 0.5 else bad_shape(rng, sub["bs"]) + feat, v["dev"]]])
+                    shp = (vb + feat) if good or rng.random() < 0.5 else bad_shape(rng, vb) + feat
+                    ents.append([key, ["t", shp[drop:], v["dev"] if rng.random() < 0.9 else rng.choice(DEVS)]])
+                elif v["k"] == "td" and rng.random() < 0.5:
+                    # a nested destination: existing and missing keys one level down
+                    extra = list(v["bs"][len(bs):])
+                    sub_ents = []
+                    for k2, v2 in v.get("ents") or []:
+                        if v2["k"] == "leaf" and rng.random() < 0.7:
+                            sub_ents.append([k2, ["t", (vb + v2["shape"][len(bs):])[drop:], v2["dev"]]])
+                    if rng.random() < 0.4:
+                        sub_ents.append([rng.choice(KEYPOOL), ["t", (vb + extra + rshape(rng, 0, 1))[drop:], node["dev"] or "cpu"]])
+                    ents.append([key, ["td", (vb + extra)[drop:], None, None, sub_ents]])
             if rng.random() < 0.5:
-                ents.append([rng.choice(KEYPOOL), ["t", sub["bs"] + rshape(rng, 0, 1), node["dev"] or "cpu"]])     # auto-created key
-            if rng.random() < 0.2:
-                ents.append([rng.choice(KEYPOOL[:5]), gen_td(rng, sub["bs"], 1, node["dev"])])
-            op["value"] = ["td", sub["bs"], rng.choice([None, node["dev"]]), None, ents] if rng.random() < 0.7 else ["dict", ents]
+                ents.append([rng.choice(KEYPOOL), ["t", (vb + rshape(rng, 0, 1))[drop:], node["dev"] or "cpu"]])     # auto-created key
+            if rng.random() < 0.25:
+                g = gen_td(rng, vb, 1, node["dev"])                                                                 # auto-created node
+                if drop == 0:
+                    ents.append([rng.choice(KEYPOOL[:5]), g])
+            vbs = vb[drop:]
+            if mode > 0.92 and vb:
+                vbs = vb[:rng.randint(0, len(vb) - 1)]
+            seen_k = set()
+            ents = [e for e in ents if not (e[0] in seen_k or seen_k.add(e[0]))]
+            op["value"] = ["td", vbs, rng.choice([None, node["dev"]]), None, ents] if rng.random() < 0.7 else ["dict", ents]
     elif o in ("update", "update_", "update_at_"):
         if o == "update_at_":
             op["idx"] = gen_idx(rng, bs, good=rng.random() < 0.9)
@@ -991,6 +1018,9 @@ def signature(step, problem):
 
 
 # ====================================================================================================== model encoding
+INDEX_OPS = ("setitem_idx", "set_at_", "update_at_")
+
+
 def modelable(s):
     """plain TensorDict trees: tensors, nested TensorDicts, NonTensorData entries"""
     k = s["k"]
@@ -1045,10 +1075,88 @@ def value_sx(d, built=None):
     return None
 
 
-def op_sx(op):
+def idx_items(d, bs):
+    """index descriptor -> list of model items (Model/C03_Index.item), or None when the index lies outside the model's
+    grammar (more than one advanced index, integer arrays with out-of-range values, tuples inside tuples)"""
+    items = d[1] if d[0] == "tup" else [d]
+    if any(x[0] == "tup" for x in items):
+        return None
+    if sum(1 for x in items if x[0] in ("list", "ten", "mask")) > 1:
+        return None
+    consumed = sum(1 for x in items if x[0] in ("int", "sl", "list", "ten", "mask"))
+    pos = 0
+    out = []
+    for x in items:
+        k = x[0]
+        if k == "int":
+            out.append([Sym("int"), int(x[1])])
+            pos += 1
+        elif k == "sl":
+            out.append([Sym("sl"), some(x[1]), some(x[2]), some(x[3])])
+            pos += 1
+        elif k in ("list", "ten"):
+            n = bs[pos] if pos < len(bs) else None
+            if n is not None and any(not (-n <= v < n) for v in x[1]):
+                return None          # bounds of integer arrays are torch's business (and not checked on meta tensors)
+            out.append([Sym("adv"), [len(x[1])]])
+            pos += 1
+        elif k == "mask":
+            out.append([Sym("mask"), [len(x[1])], sum(1 for v in x[1] if v)])
+            pos += 1
+        elif k == "ell":
+            out.append(Sym("ell"))
+            pos += max(0, len(bs) - consumed)
+        elif k == "non":
+            out.append(Sym("non"))
+        else:
+            return None
+    return out
+
+
+def node_bs(S, path):
+    n = S
+    for p in path:
+        n = dict((k, v) for k, v in (n.get("ents") or [])).get(p)
+        if n is None:
+            return None
+    return list(n.get("bs") or [])
+
+
+def op_sx(op, pre=None):
     """op descriptor -> model op, or None when the model does not cover the call"""
     o = op["op"]
     path = list(op.get("path") or [])
+    if o in ("setitem_idx", "set_at_", "update_at_"):
+        if pre is None:
+            return None
+        bs = node_bs(pre, path)
+        if bs is None:
+            return None
+        if o == "set_at_":
+            # the index meets the batch size of the node that holds the entry
+            n = sub_snapshot(pre, path + list(op["key"])[:-1])
+            bs = list(n["bs"]) if n is not None and n.get("k") == "td" else bs
+        ix = idx_items(op["idx"], bs)
+        if ix is None:
+            return None
+        if o != "setitem_idx":
+            # set_at_ / update_at_ hand the raw index to torch: an Ellipsis expands against the FULL rank of each tensor, so
+            # an integer array after it meets a feature dim (bounds of integer arrays are torch's business: not modelled)
+            its = op["idx"][1] if op["idx"][0] == "tup" else [op["idx"]]
+            kinds = [x[0] for x in its]
+            if "ell" in kinds and any(k in ("list", "ten") for k in kinds[kinds.index("ell"):]):
+                return None
+        try:
+            v = value_sx(op["value"])
+        except Exception:  # noqa: BLE001
+            return None
+        if v is None:
+            return None
+        if o == "setitem_idx":
+            return [Sym("at"), path, [Sym("setitem"), ix, v]]
+        if o == "set_at_":
+            return [Sym("at"), path, [Sym("setat"), op["key"], ix, v]]
+        return [Sym("at"), path, [Sym("updateat"), v, ix]]
     v = None
     if "value" in op:
         try:
@@ -1246,12 +1354,13 @@ def work(args):
         if not modelable(st["pre"]) or not modelable(st["post"]):
             cnt("model:outside-plain-trees")
             continue
-        mo = op_sx(st["op"])
+        mo = op_sx(st["op"], st["pre"])
         if mo is None:
             cnt("model:op-not-modelled")
             continue
-        out["lines"].append({"line": sx([Sym("step"), tree_sx(st["pre"]), mo]), "out": st["out"], "post": canon_tree(st["post"]),
-                             "coherent": not probs, "in_scope": True, "case": case_of(rec, i), "op": o})
+        out["lines"].append({"line": sx([Sym("xstep"), tree_sx(st["pre"]), mo]), "out": st["out"], "post": canon_tree(st["post"]),
+                             "coherent": not probs, "in_scope": True, "case": case_of(rec, i), "op": o,
+                             "changed": canon_tree(st["pre"]) != canon_tree(st["post"])})
     return out
 
 
@@ -1277,8 +1386,10 @@ def main(R):
               "coherent(snapshot) is evaluated.  distinct = sha1(pre-state snapshot, call); non-trivial = the call was executed (ok or raised)")
     R.assumptions = ["tensor element values are not part of the property (all leaves are zeros)",
                      "arguments handed to the calls are built through the public constructors only",
-                     "the model covers plain TensorDict trees (tensor leaves, nested TensorDicts, NonTensorData entries); lazy stacks, "
-                     "tensorclasses, index writes and update_batch_size are covered by the oracle only"]
+                     "the model covers plain TensorDict trees (tensor leaves, nested TensorDicts, NonTensorData entries) including index "
+                     "writes (td[idx] = v, set_at_, update_at_; ints / slices / None / Ellipsis / one in-range advanced index); lazy stacks, "
+                     "tensorclasses, update_batch_size, NonTensorData entries under an index write and dim names met by an auto-created "
+                     "nested entry are covered by the oracle only"]
     R.trusted = ["harness/c01.py: snapshot walk and the 4-clause oracle `coherent` (cross-checked against Coq's coherentb on every modelled state)"]
     R.step_prove()
     ok = R.step_driver()
@@ -1346,8 +1457,12 @@ def main(R):
                 mt, mo, coh_pre, coh_post, insc, clean = r
                 if mo == "unmodelled":
                     R.count("model:unmodelled-branch")
+                    if ln["op"] in INDEX_OPS:
+                        R.count("model:unmodelled-branch:" + ln["op"])
                     continue
                 R.count("model:compared")
+                if ln["op"] in INDEX_OPS:
+                    R.count("model:compared:" + ln["op"] + ":" + ln["out"] + (":state-changed" if ln.get("changed") else ""))
                 if insc == "t" and clean == "t" and coh_pre == "t":
                     inside += 1
                 if mo != ln["out"] or mt != ln["post"]:
@@ -1385,9 +1500,9 @@ def replay(body):
         if not st.get("problems"):
             print("    oracle: coherent")
         if okd and modelable(st["pre"]) and modelable(st["post"]):
-            mo = op_sx(st["op"])
+            mo = op_sx(st["op"], st["pre"])
             if mo is not None:
-                r = run_model(PID, [sx([Sym("step"), tree_sx(st["pre"]), mo])])[0]
+                r = run_model(PID, [sx([Sym("xstep"), tree_sx(st["pre"]), mo])])[0]
                 if isinstance(r, list) and len(r) == 6:
                     agree = r[1] == "unmodelled" or (r[1] == st["out"] and r[0] == canon_tree(st["post"]))
                     print(f"    model: outcome {r[1]}, coherentb(post) {r[3]}, in_scope {r[4]}, clean {r[5]}, agrees with implementation: {agree}")
